@@ -144,7 +144,7 @@ def run_episode(env, actions, fold=None, np_seed=0, max_steps=None):
             try:
                 obs, reward, done, info = env.step(a)
             except Exception as e:
-                recs.append({"kind": "step", "exc": type(e).__name__, "msg": str(e)[:200]})
+                recs.append({"kind": "step", "exc": core.exc_name(e), "msg": str(e)[:200]})
                 break
             recs.append(rec_of(env, obs, reward, done, "step"))
             k += 1
@@ -156,7 +156,7 @@ def rec_of(env, obs, reward, done, kind):
     try:
         nlv = float(env.broker.net_liquidation_value(raise_if_broke=False))
     except Exception as e:
-        nlv = "ERR:" + type(e).__name__
+        nlv = "ERR:" + core.exc_name(e)
     rb = env.exchange[env.broker.fees.interest_rate]
     tr = env.broker.track_record
     last = None
